@@ -137,6 +137,25 @@ def runOp (cfg : Config) (H : HashFn) (op : String) (a : List (String × String)
     let pk ← argBytes a "pk"
     let T : Spec.Tables := ⟨Params.lmotsGetFromType H.n, Params.lmsGetFromType⟩
     pure (if Spec.hssValid H T cfg.maxLevels msg sig pk then "ok" else "err")
+  | "auxshape" => do
+    let t ← argNat a "lms"
+    let len ← argNat a "len"
+    match Params.lmsGetFromType t with
+    | none => pure "none"
+    | some lp =>
+      if len == 0 then pure "none" else
+      let auxLen := hss_get_aux_data_len H.n lp.h len
+      let level := (hss_optimal_aux_level H.n lp.h auxLen).1
+      -- only the level word of the marked buffer matters for the shape; avoid materialising huge buffers
+      let marked := hss_store_aux_marker (Bytes.zeros (min auxLen 8)) level
+      if !hss_is_aux_data_used marked then pure s!"ok len={auxLen} level={level} layers=- mac=0" else
+      let sizes := (List.range (cfg.maxTreeHeight + 1)).map fun i => if (level >>> i) &&& 1 == 0 then 0 else H.n <<< i
+      let layers := (List.range (cfg.maxTreeHeight + 1)).filterMap fun i =>
+        let sz := sizes.getD i 0
+        if sz == 0 then none else some s!"{i}:{sz}"
+      let total := 4 + sizes.foldl (· + ·) 0
+      let ls := if layers.isEmpty then "-" else ",".intercalate layers
+      pure s!"ok len={auxLen} level={level} layers={ls} mac={auxLen - total}"
   | "lifetime" => do
     let sk ← argBytes a "sk"
     pure <| showP (getLifetime H cfg sk) fun r =>
